@@ -565,3 +565,81 @@ Proof.
   apply N.eqb_eq in Ec. subst c. inversion R; subst f.
   exact (opened_safe_inside tree (h_path h) (h_public h) t stP names isdir Su HP Ho).
 Qed.
+
+(** ------------------------------------------------------------------ *)
+(** * The two descriptions of path resolution agree: [resolve] (zipper; used for the CONTENT a path yields) and
+      [cwalk] (names from the root; used for the OBJECT a path opens) *)
+
+(** the zipper of the object [st] (names from the root, innermost first): the node and its ancestors, nearest first *)
+Fixpoint zipper (root : node) (st : list bytes) : option pos :=
+  match st with
+  | [] => Some (root, [])
+  | x :: st' =>
+      match zipper root st' with
+      | Some (n, ups) => match child n x with Some c => Some (c, n :: ups) | None => None end
+      | None => None
+      end
+  end.
+
+Lemma descend_app_some root a b n : descend root a = Some n -> descend root (a ++ b) = descend n b.
+Proof.
+  revert root. induction a as [|x a IH]; intros root; cbn [descend app].
+  - intros H. inversion H. reflexivity.
+  - destruct (child root x); [apply IH|discriminate].
+Qed.
+
+Lemma zipper_descend root st n ups : zipper root st = Some (n, ups) -> descend root (rev st) = Some n.
+Proof.
+  revert n ups. induction st as [|x st IH]; intros n ups; cbn [zipper rev].
+  - intros H. inversion H. reflexivity.
+  - destruct (zipper root st) as [[m ups']|]; [|discriminate].
+    destruct (child m x) as [c|] eqn:C; [|discriminate]. intros H. inversion H; subst.
+    rewrite (descend_app_some root (rev st) [x] m (IH m ups' eq_refl)). cbn [descend]. rewrite C. reflexivity.
+Qed.
+
+Lemma descend_zipper root st n : descend root (rev st) = Some n -> exists ups, zipper root st = Some (n, ups).
+Proof.
+  revert n. induction st as [|x st IH]; intros n; cbn [zipper rev].
+  - cbn [descend]. intros H. inversion H. exists []. reflexivity.
+  - intros H. destruct (descend root (rev st)) as [m|] eqn:D.
+    + rewrite (descend_app_some root (rev st) [x] m D) in H. cbn [descend] in H.
+      destruct (IH m eq_refl) as [ups Z]. rewrite Z.
+      destruct (child m x) as [c|]; [|discriminate]. inversion H; subst. exists (m :: ups). reflexivity.
+    + exfalso. clear IH. revert H D. generalize (rev st). intros l. revert root.
+      induction l as [|a l IHl]; intros root; cbn [descend app]; [discriminate|].
+      destruct (child root a); [apply IHl|discriminate].
+Qed.
+
+Lemma cwalk_resolve root segs : forall st st' p,
+  zipper root st = Some p -> cwalk root st segs = Some st' ->
+  exists p', resolve p segs = Some p' /\ zipper root st' = Some p'.
+Proof.
+  induction segs as [|s segs IH]; intros st st' p Z; cbn [cwalk resolve].
+  - intros H. inversion H; subst. exists p. auto.
+  - destruct p as [n ups]. rewrite (zipper_descend root st n ups Z).
+    unfold step. destruct (negb (is_dir n)); [discriminate|].
+    destruct (is_empty s || is_dot s); [apply IH; exact Z|].
+    destruct (is_dotdot s).
+    + destruct st as [|x st0]; cbn [tl].
+      * cbn [zipper] in Z. inversion Z; subst. apply IH. reflexivity.
+      * cbn [zipper] in Z. destruct (zipper root st0) as [[m ups0]|] eqn:Z0; [|discriminate].
+        destruct (child m x); [|discriminate]. inversion Z; subst. apply IH. exact Z0.
+    + destruct (child n s) as [c|] eqn:C; [|discriminate].
+      apply IH. cbn [zipper]. rewrite Z, C. reflexivity.
+Qed.
+
+(** a content read through [read_path] from the root is the content of the (regular) file [opened] names *)
+Lemma read_is_opened tree f c :
+  starts_with [c_slash] f = true ->
+  read_path (tree, []) (tree, []) f = Some c ->
+  forall names isdir, opened tree f = Some (names, isdir) -> isdir = false /\ descend tree names = Some (File c).
+Proof.
+  intros Hs R names isdir O. unfold read_path, resolve_path in R. rewrite Hs in R.
+  unfold opened in O.
+  destruct (cwalk tree [] (segments f)) as [st|] eqn:Cw; [|discriminate].
+  destruct (cwalk_resolve tree (segments f) [] st (tree, []) eq_refl Cw) as (p' & Rp & Zp).
+  rewrite Rp in R. destruct p' as [n ups]. cbn [content_at] in R.
+  destruct n as [c'|ch]; [|discriminate]. inversion R; subst c'.
+  rewrite (zipper_descend tree st (File c) ups Zp) in O. inversion O; subst. split; [reflexivity|].
+  exact (zipper_descend tree st (File c) ups Zp).
+Qed.
